@@ -106,7 +106,8 @@ def generate(prop, rng, seed, index, tier):
     poll = rng.choice([0.25, 0.5, 1])
     maxlat = max([x or 0 for x in sink.get('lat', [0])] + [0])
     return {'format': 1, 'family': 'files', 'property': 'C17', 'seed': seed, 'index': index,
-            'source': {'type': 'filenames', 'pre': names[:npre], 'order_key': order_key, 'poll': poll},
+            'source': {'type': 'filenames', 'pre': names[:npre], 'order_key': order_key, 'poll': poll,
+                       'twin': rng.random() < 0.3},
             'ops': ops, 'sink': sink, 'via_map': False,
             'tiebreak': rng.choice(['fifo', 'lifo', 'seeded']), 'tiebreak_seed': rng.randrange(1000),
             'drain': (len(names) + 3) * (maxlat + poll) + 5}
@@ -222,6 +223,14 @@ def evaluate(prop, sc, want_trace=False):
             elif sorted(got) != sorted(set(names)):
                 V.append(Violation('C17', 'C17.filenames', len(ev) - 1,
                                    'filenames emitted %r, paths that exist: %r' % (got, sorted(set(names))), node_op='filenames'))
+        if not V and s.get('twin') and ended and status == 'ok':
+            got2 = [e[3] for e in ev if e[2] == 'twin_emit']
+            gone = set(o['name'] for o in sc['ops'] if o['op'] == 'delete' and not o.get('skip'))
+            if not (set(names) - gone <= set(got2) <= set(names)) or len(got2) != len(set(got2)):
+                V.append(Violation('C17', 'C17.filenames', len(ev) - 1,
+                                   'a second filenames source watching the same directory emitted %r, paths created: %r (deleted: %r)'
+                                   % (got2, sorted(set(names)), sorted(gone)), node_op='filenames'))
+            out.probes['two_sources_on_one_directory'] = 1
         if len(names) >= 2:
             out.probes['paths>=2'] = 1
             gl = [e[4] for e in ev if e[2] == 'cycle' and e[3] == 'glob']
